@@ -3,6 +3,8 @@ package worlds
 import (
 	"crypto/sha1"
 	"fmt"
+	"go.minekube.com/gate/pkg/edition/java/proxy/message"
+	"os"
 	"strings"
 	"time"
 
@@ -38,8 +40,8 @@ func init() {
 		Model: "client with independent CFB8 + math/big digest; session server = http.RoundTripper model; scripted PreLogin subscriber"})
 	Register(&Scenario{Prop: "C09", Desc: "session-server id equals Java's signed SHA-1 hex digest", Run: func(r *Run) { runOnline(r, true) },
 		Quick: 500, Thorough: 100000,
-		Real:  "auth.authenticator.GenerateServerID inside the real three-party online login",
-		Model: "client-side reference digest (math/big, BigInteger.toString(16) semantics) announced to the session-server model",
+		Real:   "auth.authenticator.GenerateServerID inside the real three-party online login",
+		Model:  "client-side reference digest (math/big, BigInteger.toString(16) semantics) announced to the session-server model",
 		Assume: []string{"the digest function is pure; it is claimed as the agreement condition of the three-party login: input space explored = login secrets (biased to digest corner classes)"}})
 }
 
@@ -100,11 +102,16 @@ func runOnline(r *Run, digestFocus bool) {
 	behaviour := "honest"
 	if !digestFocus {
 		behaviour = []string{"honest", "honest", "forged-token", "wrong-key", "bad-secret-len", "skip-join", "announce-as-other",
-			"enc-response-first", "dup-login-start", "early-ack", "unknown-id", "reset-during-auth"}[r.W.Pick(12)]
+			"enc-response-first", "dup-login-start", "early-ack", "unknown-id", "reset-during-auth",
+			"empty-token", "prefix-token", "extended-token", "dup-login-other-name"}[r.W.Pick(16)]
 	}
 	preLogin := "none"
 	if !digestFocus {
-		preLogin = []string{"none", "none", "none", "force-offline", "force-online", "deny"}[r.W.Pick(6)]
+		preLogin = []string{"none", "none", "none", "force-offline", "force-online", "deny", "plugin-msg", "plugin-msg"}[r.W.Pick(8)]
+	}
+	if f := os.Getenv("VSIM_C08_FORCE"); f != "" && !digestFocus {
+		parts := strings.Split(f, "/")
+		behaviour, preLogin = parts[0], parts[1]
 	}
 	sessMode := ""
 	if !digestFocus && r.F.Pick(3) == 2 {
@@ -119,6 +126,14 @@ func runOnline(r *Run, digestFocus bool) {
 			e.ForceOnlineMode()
 		case "deny":
 			e.Deny(textComp("denied"))
+		case "plugin-msg":
+			// the login now waits for the client's plugin response
+			if lpc, ok := e.Conn().(proxy.LoginPhaseConnection); ok && prot.GreaterEqual(version.Minecraft_1_13) {
+				ch, _ := message.ChannelIdentifierFrom("verif:prelogin")
+				if err := lpc.SendLoginPluginMessage(ch, []byte("Q"), c08consumer{}); err == nil {
+					r.Probe("prelogin_plugin_message_sent")
+				}
+			}
 		}
 	}
 	expectEncryption := preLogin != "force-offline" && preLogin != "deny" && (onlineCfg || preLogin == "force-online")
@@ -139,14 +154,34 @@ func runOnline(r *Run, digestFocus bool) {
 		ob.SkipJoin = true
 	case "announce-as-other":
 		ob.AnnounceAs = "Bob"
+	case "empty-token":
+		ob.TokenMode = "empty"
+	case "prefix-token":
+		ob.TokenMode = "prefix"
+	case "extended-token":
+		ob.TokenMode = "extended"
 	}
 	var cl *clientModel
 	sawEncReq := false
+	var lastReq *packet.EncryptionRequest
+	deferred := false
 	cl = w.addClient(name, prot, func(c *clientModel) {
 		installOnline(c, ss, ob)
 		inner := c.Online.Respond
 		c.Online.Respond = func(c *clientModel, req *packet.EncryptionRequest) {
 			sawEncReq = true
+			if strings.HasPrefix(behaviour, "dup-login") {
+				// hostile client: waits for the requests to stop coming and answers the last one
+				lastReq = req
+				if !deferred {
+					deferred = true
+					simrt.Go(func() {
+						simrt.Sleep(40*time.Millisecond, "c08.defer-response")
+						inner(c, lastReq)
+					})
+				}
+				return
+			}
 			inner(c, req)
 			if behaviour == "reset-during-auth" {
 				r.Fault("client_reset_while_hasjoined_in_flight")
@@ -170,6 +205,9 @@ func runOnline(r *Run, digestFocus bool) {
 		case "dup-login-start":
 			_ = loginStart()
 			_ = loginStart()
+		case "dup-login-other-name":
+			_ = loginStart()
+			_ = c.sendRaw(loginStartPayload(prot, "Mallory", onlineUUID("Mallory")))
 		case "early-ack":
 			_ = loginStart()
 			if prot.GreaterEqual(version.Minecraft_1_20_2) {
@@ -209,8 +247,8 @@ func runOnline(r *Run, digestFocus bool) {
 	}
 	admitted := cl.LoginSuccess != nil || registeredSeen
 	// legitimacy
-	honestCrypto := !ob.ForgeToken && !ob.WrongKey && !ob.BadSecretLen
-	orderOK := behaviour != "enc-response-first" && behaviour != "dup-login-start" && behaviour != "early-ack" && behaviour != "unknown-id"
+	honestCrypto := !ob.ForgeToken && !ob.WrongKey && !ob.BadSecretLen && ob.TokenMode == ""
+	orderOK := behaviour != "enc-response-first" && behaviour != "dup-login-start" && behaviour != "dup-login-other-name" && behaviour != "early-ack" && behaviour != "unknown-id"
 	got200 := false
 	for _, q := range ss.Queries {
 		if q.Outcome == "200" && q.Username == name && q.ServerID == ob.ServerIDSeen {
@@ -247,6 +285,10 @@ func runOnline(r *Run, digestFocus bool) {
 			return
 		}
 	}
+	if !orderOK && len(ss.Queries) > 0 {
+		r.Fail("login-continued-after-out-of-order-packet", behaviour+"/"+preLogin, "the client sent a login packet out of order or twice, yet the login went on to the session server: %s", desc())
+		return
+	}
 	if admitted && !legit {
 		r.Fail("unauthenticated-client-admitted", behaviour+"/"+preLogin, "a client that must not be admitted was admitted: %s", desc())
 		return
@@ -271,3 +313,7 @@ func runOnline(r *Run, digestFocus bool) {
 	r.State(strings.Join([]string{behaviour, preLogin, sessMode, fmt.Sprint(admitted), class}, "|"))
 	r.Res.Sample = map[string]any{"protocol": int(prot), "behaviour": behaviour, "prelogin": preLogin, "session_mode": sessMode, "admitted": admitted, "legit": legit, "digest_class": class, "digest": ob.ServerIDSeen, "queries": len(ss.Queries)}
 }
+
+type c08consumer struct{}
+
+func (c08consumer) OnMessageResponse([]byte) error { return nil }
